@@ -532,3 +532,36 @@ func c13Scenarios(thorough bool) []*scenario {
 		[]podSpec{nsPod("x", "a", tG1, nil), nsPod("y", "b", tG1, nil), nsPod("z", "default", tBE, nil)}, menu{stop: true, remove: true})
 	return out
 }
+
+
+// ---------------------------------------------------------------------------
+// C11: restart on a previously saved cache (request boundaries and mid-request saves) x runtime truth at restart
+
+func c11Scenarios(thorough bool) []*scenario {
+	var out []*scenario
+	add := func(name, pol string, m *sysgen.Spec, cfgs []cfgSpec, ps []podSpec, mn menu) *scenario {
+		s := &scenario{name: name, policy: pol, machine: m, cfgs: cfgs, pods: ps, menu: mn, depth: 4, maxInc: 1}
+		if thorough {
+			s.depth = 5
+		}
+		s.prefix = runAll(len(ps))
+		out = append(out, s)
+		return s
+	}
+	std := []cfgSpec{taCfg("rsv750m")}
+	ks := pod1("ks", "kube-system", "Burstable", tB200, nil)
+	rt := menu{start: true, stop: true, remove: true, restart: true, restartTruth: true}
+	cut := menu{start: true, stop: true, restart: true, restartCuts: true}
+	add("ta/restart/truth/G2-B500-KS", polTA, machine16(), std, append(pods(tG2, tB500), ks), rt)
+	add("ta/restart/truth/G1500-M3G-BE", polTA, machine8(), std, pods(tG1500, tM3G, tBE), rt)
+	add("ta/restart/cuts/G2-B500-BE", polTA, machine16(), std, pods(tG2, tB500, tBE), cut)
+	add("ta/restart/cuts/G1-M3G", polTA, machine8(), std, pods(tG1, tM3G), cut)
+	defs := []*blcfg.BalloonDef{
+		{Name: "dyn", Namespaces: []string{"dyn*"}, MinCpus: 1, MaxCpus: 4, PreferNewBalloons: true, ShareIdleCpusInSame: blcfg.CPUTopologyLevelSystem},
+		{Name: "share", Namespaces: []string{"share"}, MinBalloons: 1, MinCpus: 1, ShareIdleCpusInSame: blcfg.CPUTopologyLevelSystem},
+	}
+	blp := []podSpec{nsPod("a", "dyn1", tG2, nil), nsPod("b", "dyn1", tB500, nil), nsPod("c", "share", tM3G, nil)}
+	add("bl/restart/truth", polBalloons, machine8(), []cfgSpec{blCfg("dyn", defs)}, blp, rt)
+	add("bl/restart/cuts", polBalloons, machine8(), []cfgSpec{blCfg("dyn", defs)}, blp, cut)
+	return out
+}
